@@ -1,6 +1,6 @@
 (* OutboundIdPProofs.v — the IdP model accepts every AuthnRequest the SP model produces *)
+From Saml Require Import IdPModel IdPModelProofs.
 From Saml Require Import Base BaseProofs UrlEnc UrlEncProofs TimeModel Outbound OutboundProofs OutboundIdP.
-From Saml Require IdPModel IdPModelProofs.
 From Coq Require Import ZifyBool.
 Ltac Zify.zify_post_hook ::= Z.div_mod_to_equations.
 
